@@ -5,4 +5,6 @@ pub mod gen;
 pub mod refs;
 pub mod props {
     pub mod c01;
+    pub mod c02;
+    pub mod c03;
 }
